@@ -6,6 +6,12 @@ From Coq Require Import List NArith ZArith Bool Lia Arith.
 Import ListNotations.
 From NV Require Import Rec.Lang Rec.Spec Rec.Mech Rec.SpecProofs Rec.MechInv Rec.MechMerge.
 
+(* both modes of the invariant: [u = false] known dependencies, [u = true] all unknown (hook H4) *)
+Section Mode.
+Variable u : bool.
+Local Notation coherent := (coherent u).
+Local Notation faithful := (faithful u).
+
 (* operands stay usable with their own values: a merge changes no field of any existing record *)
 Theorem operands_unchanged : forall c st rid1 rid2 st' rid',
   faithful c -> coherent st rid1 -> coherent st rid2 ->
@@ -13,10 +19,10 @@ Theorem operands_unchanged : forall c st rid1 rid2 st' rid',
   forall r, coherent st r -> forall fuel k, ifield fuel st' r k = ifield fuel st r k.
 Proof.
   intros c st rid1 rid2 st' rid' Hc H1 H2 Hm r Hr fuel k.
-  destruct (merge_ok c st rid1 rid2 Hc H1 H2) as (st2 & rid2' & Hm' & Hext & _).
+  destruct (merge_ok u c st rid1 rid2 Hc H1 H2) as (st2 & rid2' & Hm' & Hext & _).
   rewrite Hm in Hm'. inversion Hm'; subst st2 rid2'.
-  destruct (extends_coherent st st' r Hext Hr) as [Hr' Habs].
-  rewrite (override_refines st' r Hr'), (override_refines st r Hr), Habs. reflexivity.
+  destruct (extends_coherent u st st' r Hext Hr) as [Hr' Habs].
+  rewrite (override_refines u st' r Hr'), (override_refines u st r Hr), Habs. reflexivity.
 Qed.
 
 (* the result of a merge, read through the mechanism, is the merge of the specification *)
@@ -26,14 +32,16 @@ Theorem merge_refines : forall c st rid1 rid2 st' rid',
   forall fuel k, ifield fuel st' rid' k = sfield fuel (smerge (abs st rid1) (abs st rid2)) k.
 Proof.
   intros c st rid1 rid2 st' rid' Hc H1 H2 Hm fuel k.
-  destruct (merge_ok c st rid1 rid2 Hc H1 H2) as (st2 & rid2' & Hm' & _ & Hco & Hsim).
+  destruct (merge_ok u c st rid1 rid2 Hc H1 H2) as (st2 & rid2' & Hm' & _ & Hco & Hsim).
   rewrite Hm in Hm'. inversion Hm'; subst st2 rid2'.
-  rewrite (override_refines st' rid' Hco). apply sfield_sim. exact Hsim.
+  rewrite (override_refines u st' rid' Hco). apply sfield_sim. exact Hsim.
 Qed.
 
 (* ------------------------------------------------------------------------- histories *)
+(* the literals of the history: distinct field names; with unknown dependencies also closed (every
+   variable is a statically named field of its literal -- what the typechecker enforces on source) *)
 Definition lits_ok (h : history) : Prop :=
-  forall l, In (SLit l) h -> NoDup (lit_names l).
+  forall l, In (SLit l) h -> NoDup (lit_names l) /\ (u = true -> lit_closed l).
 
 Definition slot_ok (st : state) (sl : slot) (os : option srec) : Prop :=
   match sl, os with
@@ -45,7 +53,7 @@ Definition slot_ok (st : state) (sl : slot) (os : option srec) : Prop :=
 Lemma slot_ok_extends : forall st st' sl os, extends st st' -> slot_ok st sl os -> slot_ok st' sl os.
 Proof.
   intros st st' [r| |] [R|] Hext H; cbn [slot_ok] in *; try exact H.
-  destruct H as [Hco Hsim]. destruct (extends_coherent st st' r Hext Hco) as [Hco' Habs].
+  destruct H as [Hco Hsim]. destruct (extends_coherent u st st' r Hext Hco) as [Hco' Habs].
   split; [exact Hco'|]. rewrite Habs. exact Hsim.
 Qed.
 
@@ -70,13 +78,13 @@ Lemma Forall2_impl2 : forall A B (P Q : A -> B -> Prop) l l',
 Proof. intros A B P Q l l' H HF. induction HF; constructor; auto. Qed.
 
 Lemma istep_ok : forall c st done sdone s,
-  faithful c -> (forall l, s = SLit l -> NoDup (lit_names l)) ->
+  faithful c -> (forall l, s = SLit l -> NoDup (lit_names l) /\ (u = true -> lit_closed l)) ->
   Forall2 (slot_ok st) done sdone ->
   let (st', done') := istep c (st, done) s in
   extends st st' /\ Forall2 (slot_ok st') done' (sdone ++ [sstep sdone s]).
 Proof.
   intros c st done sdone s Hc Hl HF. unfold istep, sstep. destruct s as [l|i j].
-  - destruct (eval_literal_ok c st l Hc (Hl l eq_refl)) as (st' & He & Hext & Hco & Hsim). rewrite He.
+  - destruct (eval_literal_ok u c st l Hc (proj1 (Hl l eq_refl)) (proj2 (Hl l eq_refl))) as (st' & He & Hext & Hco & Hsim). rewrite He.
     split; [exact Hext|]. apply Forall2_snoc.
     + eapply Forall2_impl2; [|exact HF]. intros a b. apply slot_ok_extends. exact Hext.
     + cbn [slot_ok]. split; assumption.
@@ -85,7 +93,7 @@ Proof.
     destruct (nth_error done j) as [[r2| |]|] eqn:Ej; destruct (nth_error sdone j) as [[R2|]|] eqn:Ej'; cbn [slot_ok] in Hj; try contradiction;
     try (split; [apply extends_refl|]; apply Forall2_snoc; [exact HF | exact I]).
     destruct Hi as [Hco1 Hs1]. destruct Hj as [Hco2 Hs2].
-    destruct (merge_ok c st r1 r2 Hc Hco1 Hco2) as (st' & rid' & Hm & Hext & Hco & Hsim). rewrite Hm.
+    destruct (merge_ok u c st r1 r2 Hc Hco1 Hco2) as (st' & rid' & Hm & Hext & Hco & Hsim). rewrite Hm.
     split; [exact Hext|]. apply Forall2_snoc.
     + eapply Forall2_impl2; [|exact HF]. intros a b. apply slot_ok_extends. exact Hext.
     + cbn [slot_ok]. split; [exact Hco|]. eapply srec_sim_trans; [exact Hsim|]. apply smerge_sim; assumption.
@@ -132,8 +140,10 @@ Proof.
   intros c h i Hc Hl. pose proof (history_refines c h Hc Hl) as H.
   destruct (irun c h) as [st slots]. pose proof (Forall2_nth_error _ _ _ _ _ i H) as Hi.
   destruct (nth_error slots i) as [[r| |]|]; destruct (nth_error (srun h) i) as [[R|]|]; cbn [slot_ok] in Hi; try contradiction; try exact I.
-  destruct Hi as [Hco Hsim]. intros fuel k. rewrite (override_refines st r Hco). apply sfield_sim. exact Hsim.
+  destruct Hi as [Hco Hsim]. intros fuel k. rewrite (override_refines u st r Hco). apply sfield_sim. exact Hsim.
 Qed.
+
+End Mode.
 
 (* ------------------------------------------------------------------------- satisfiability *)
 (* let s0 = {a | default = 1, b = a + 1} in let s1 = {a = 5} in let s2 = s0 & s1 in let s3 = s2 & s0 in .. *)
@@ -144,9 +154,9 @@ Definition example_history : history :=
     SMerge 0 1;
     SMerge 2 0 ].
 
-Example example_history_ok : lits_ok example_history.
+Example example_history_ok : lits_ok false example_history.
 Proof.
-  intros l [H|[H|[H|[H|[]]]]]; inversion H; subst; cbn; repeat constructor; cbn; intuition discriminate.
+  intros l [H|[H|[H|[H|[]]]]]; inversion H; subst; (split; [|discriminate]); cbn; repeat constructor; cbn; intuition discriminate.
 Qed.
 
 Example example_history_values :
@@ -219,9 +229,9 @@ Proof.
   rewrite Hstep. apply IH. intros l H. apply Hs. right. exact H.
 Qed.
 
-(* the property's sentence for the current code, on histories without dynamically named fields *)
+(* the property's sentence for the code before fix 8192ce0, on histories without dynamically named fields *)
 Theorem history_fields_current : forall h i,
-  hist_static h -> lits_ok h ->
+  hist_static h -> lits_ok false h ->
   let (st, slots) := irun cfg_current h in
   match nth_error slots i, nth_error (srun h) i with
   | Some (Rid r), Some (Some R) => forall fuel k, ifield fuel st r k = sfield fuel R k
@@ -232,5 +242,46 @@ Theorem history_fields_current : forall h i,
 Proof.
   intros h i Hs Hl. unfold irun.
   change cfg_current with (set_wrap true cfg_fixed). rewrite (static_history_same true cfg_fixed h Hs).
-  exact (history_fields cfg_fixed h i cfg_fixed_faithful Hl).
+  exact (history_fields false cfg_fixed h i cfg_fixed_faithful Hl).
+Qed.
+
+(* ------------------------------------------------------------------------- hook H4
+   With every dependency unknown (FieldDeps::Unknown) a field read gives what the specification gives
+   as well, provided the literals are closed; hence the same as with the computed dependencies. *)
+Definition hist_closed (h : history) : Prop :=
+  forall l, In (SLit l) h -> NoDup (lit_names l) /\ lit_closed l.
+
+Theorem history_fields_unknown : forall h i,
+  hist_closed h ->
+  let (st, slots) := irun (with_unknown cfg_fixed) h in
+  match nth_error slots i, nth_error (srun h) i with
+  | Some (Rid r), Some (Some R) => forall fuel k, ifield fuel st r k = sfield fuel R k
+  | Some BadRef, Some None => True
+  | None, None => True
+  | _, _ => False
+  end.
+Proof.
+  intros h i Hc. apply (history_fields true (with_unknown cfg_fixed) h i cfg_fixed_unknown_faithful).
+  intros l Hin. destruct (Hc l Hin) as [H1 H2]. split; [exact H1 | intros _; exact H2].
+Qed.
+
+Theorem depsunknown_equiv : forall h i,
+  hist_closed h ->
+  let (st, slots) := irun cfg_fixed h in
+  let (stu, slotsu) := irun (with_unknown cfg_fixed) h in
+  match nth_error slots i, nth_error slotsu i with
+  | Some (Rid r), Some (Rid ru) => forall fuel k, ifield fuel stu ru k = ifield fuel st r k
+  | Some BadRef, Some BadRef => True
+  | None, None => True
+  | _, _ => False
+  end.
+Proof.
+  intros h i Hc.
+  assert (Hl : lits_ok false h) by (intros l Hin; split; [exact (proj1 (Hc l Hin)) | discriminate]).
+  pose proof (history_fields false cfg_fixed h i cfg_fixed_faithful Hl) as H1.
+  pose proof (history_fields_unknown h i Hc) as H2.
+  destruct (irun cfg_fixed h) as [st slots]. destruct (irun (with_unknown cfg_fixed) h) as [stu slotsu].
+  destruct (nth_error slots i) as [[r| |]|]; destruct (nth_error slotsu i) as [[ru| |]|];
+    destruct (nth_error (srun h) i) as [[R|]|]; try contradiction; try exact I.
+  intros fuel k. rewrite H1, H2. reflexivity.
 Qed.
